@@ -1039,6 +1039,9 @@ def views_oracle(case, toks):
                 if n == 1 and raw != joined:
                     v.failures.append('op %d: single line, but seq() differs from it' % idx)
                     return v
+                if 'o' in f and bytes.fromhex(f['o']) != joined:
+                    v.failures.append('op %d: owned_seq() %r differs from the concatenated sequence lines %r' % (idx, bytes.fromhex(f['o'])[-20:], joined[-20:]))
+                    return v
     return v
 
 
@@ -1091,3 +1094,39 @@ def parallel_init_oracle(c, o, which):
     if tail == 'E:init.rec' and not rec_failed:
         v.failures.append('record-data initialisation error returned although that closure did not fail')
     return v
+
+
+def fused_oracle(c, o, s):
+    """C20 for the reader-backed iterators with a source that reports Ok(0) and later delivers data: once the end
+    was reported it stays reported"""
+    v = Verdict()
+    case = parse_case_line(c)
+    toks, _ = split_obs(canon(o))
+    items = parse_spec(case['fmt'], canon(s))
+    ended = False
+    k = 0
+    for idx, tok in enumerate(toks):
+        t = strip_growth(tok)
+        if t in ('PANIC', 'HANG'):
+            v.failures.append('%s at op %d' % (t, idx))
+            return v
+        if t == 'N':
+            ended = True
+            v.nontrivial = True
+            continue
+        if ended:
+            v.failures.append('op %d: the iterator had reported the end and then returned %s' % (idx, t[:60]))
+            return v
+        if t.startswith('R:') or t.startswith('O:'):
+            # (no content check: a source that reports Ok(0) early makes the reader take the short buffer for the
+            # end of the input, so the last record may be cut off – that is the source breaking the Read contract)
+            k += 1
+        elif t.startswith('E:'):
+            ended = False
+            break
+    return v
+
+
+def parse_case_line(c):
+    from .obs import parse_case
+    return parse_case(c)
